@@ -74,6 +74,7 @@ func (s *Store) AddMessage(message storage.Message) (id string, err error) {
 		date:    message.Date(),
 		subject: message.Subject(),
 	}
+	var evicted []*Message
 	s.withMailbox(message.Mailbox(), true, func(mb *mbox) {
 		// Generate message ID.
 		mb.last++
@@ -86,13 +87,26 @@ func (s *Store) AddMessage(message storage.Message) (id string, err error) {
 		if s.cap > 0 {
 			// Enforce cap.
 			for len(mb.messages) > s.cap {
+				if old, ok := mb.messages[strconv.Itoa(mb.first)]; ok {
+					evicted = append(evicted, old)
+				}
 				delete(mb.messages, strconv.Itoa(mb.first))
 				mb.first++
 			}
 		}
 	})
+	// Messages evicted by the cap leave the size enforcer's accounting and emit delete events.
+	for _, old := range evicted {
+		s.enforcerRemove(old)
+		s.emitDeleted(old)
+	}
 	s.enforcerDeliver(m)
 	return id, err
+}
+
+// emitDeleted emits the delete event for m.
+func (s *Store) emitDeleted(m *Message) {
+	s.extHost.Events.AfterMessageDeleted.Emit(message.MakeMetadata(m))
 }
 
 // GetMessage gets a mesage.
